@@ -197,7 +197,7 @@ def generate(w, sub, tla, cfg, outfile, num=None, depth=None, seed=None, timeout
         cfg = "gen_" + cfg
         open(os.path.join(d, cfg), "w").write(txt)
     if exhaustive:
-        args, workers = [], NCPU
+        args, workers = [], 1
     else:
         args = ["-simulate", "num=%d" % num, "-depth", str(depth + 2), "-seed", str(seed if seed is not None else w.seed)]
         workers = 1
